@@ -6,6 +6,10 @@ platform A) followed by steps
     read   resolve (component, platform) pairs          -> each one is judged against the layering
     set    change one variable of one layer             -> the tracked document changes by construction
     user   the user variable file is applied to the live (possibly already queried) object
+    ro     an operation that only READS the description: instance() / replicate() with the flag
+           combinations the package loader uses (and the defaults), raw(), get_component_configuration()
+           with other flag combinations, get_component_variables() -> results are discarded; the
+           tracked document does not change, so the queries that follow must answer as before
 
 The "set" kinds are the public setters of the four variable scopes and of the component scope:
 
@@ -19,6 +23,11 @@ The "set" kinds are the public setters of the four variable scopes and of the co
 reference layering of the tracked document: nothing here knows how the code under test caches.
 Values follow the conventions of gen/c04_docs.py (references only point forward in VAR_ORDER, so
 the variable graph stays acyclic; n1/n2 stay integers / decimal strings; flag stays a truth word).
+
+Documents additionally get a DICT-valued option (resourceManager.kubernetes.podSpec, which the
+built-in defaults leave unset) in stage blueprints of default and non-default platforms, in global
+blueprints, components and overrides: the layers contribute different keys plus one shared key,
+values may reference universal variables that components / overrides / the user file redefine.
 """
 from __future__ import annotations
 
@@ -56,12 +65,89 @@ def _value(r, doc, name, tag, allow_undefined):
     return tag
 
 
+PODSPEC = ("resourceManager", "kubernetes", "podSpec")
+
+# flag combinations: what conf.py passes (store_unreplicated_flowir_to_disk / dosini dump, replicate(),
+# get_flowir(raw=False)) and the defaults
+INSTANCE_FLAGS = [
+    {"ignore_errors": True, "inject_missing_fields": False, "fill_in_all": False, "is_primitive": True},
+    {"ignore_errors": True, "fill_in_all": False},
+    {"fill_in_all": True, "is_primitive": True},
+    {"fill_in_all": True, "is_primitive": False},
+    {},
+    {"ignore_errors": True, "fill_in_all": True},
+]
+QUERY_FLAGS = [
+    {"raw": True, "include_default": False},
+    {"raw": True, "include_default": True},
+    {"raw": False, "include_default": False, "ignore_convert_errors": True},
+    {"raw": False, "include_default": True, "is_primitive": True},
+    {"raw": True, "include_default": False, "inject_missing_fields": False, "is_primitive": True},
+    {"raw": False, "include_default": True, "inject_missing_fields": False, "ignore_convert_errors": True},
+    {"raw": False, "include_default": True, "ignore_convert_errors": True},
+]
+
+
+def _podspec(r, doc, tag, with_ref):
+    """A dict-valued option: an own key, a key every layer shares, sometimes a nested dict."""
+    universal = [v for v in ((doc["variables"].get("default") or {}).get("global") or {})
+                 if v in STR_VARS or v in INT_VARS]
+
+    def text(t):
+        if with_ref and universal and r.random() < 0.6:
+            return "%s %%(%s)s" % (t, r.choice(universal))
+        return t
+    out = {"own-" + tag.split(".")[0] + tag.split(".")[1]: text(tag + ".own"), "shared": text(tag + ".shared")}
+    if r.random() < 0.4:
+        out["nested"] = {"n-" + tag.split(".")[0]: text(tag + ".nested"), "shared": tag + ".nested-shared"}
+    return out
+
+
+def add_dict_options(r, doc):
+    """Put podSpec dictionaries into the layers of `doc` (in place).  Stage blueprints get them most
+    often: a dict-valued key that the lower layers (built-in defaults: None) do not have."""
+    from ref import c04_layering as ref
+    nstages = max(c["stage"] for c in doc["components"]) + 1
+    for q, plat in enumerate(doc["platforms"]):
+        bp = doc["blueprint"].setdefault(plat, {"global": {}, "stages": {}})
+        lg, ls = ("dg", "ds") if plat == "default" else ("pg", "ps")
+        if r.random() < 0.25:
+            ref.set_path(bp["global"], PODSPEC, _podspec(r, doc, "%s.%s" % (lg, plat), True))
+        for s in range(nstages):
+            if r.random() < 0.65:
+                ref.set_path(bp["stages"].setdefault(s, {}), PODSPEC, _podspec(r, doc, "%s.%s%d" % (ls, plat, s), True))
+    for c in doc["components"]:
+        if r.random() < 0.6:
+            ref.set_path(c, PODSPEC, _podspec(r, doc, "comp.%s" % c["name"], r.random() < 0.5))
+        for plat, o in (c.get("override") or {}).items():
+            if r.random() < 0.4:
+                ref.set_path(o, PODSPEC, _podspec(r, doc, "ovr.%s-%s" % (plat, c["name"]), r.random() < 0.5))
+
+
+def _ro_step(r, platforms, active, comps):
+    x = r.random()
+    q = r.choice(platforms)
+    plat = {"platform": q, "explicit": not (q == active and r.random() < 0.4)}
+    if x < 0.40:
+        return dict({"op": "ro", "call": "instance", "flags": dict(r.choice(INSTANCE_FLAGS))}, **plat)
+    if x < 0.65:
+        return dict({"op": "ro", "call": "replicate", "flags": {"ignore_errors": r.random() < 0.8}}, **plat)
+    if x < 0.72:
+        return {"op": "ro", "call": "raw"}
+    s, n = r.choice(comps)
+    if x < 0.92:
+        return dict({"op": "ro", "call": "query", "comp": [s, n], "flags": dict(r.choice(QUERY_FLAGS))}, **plat)
+    return dict({"op": "ro", "call": "variables", "comp": [s, n]}, **plat)
+
+
 def gen_history(index, salt="C04-updates"):
     """Deterministic history number `index`.  JSON-able."""
     r = vlib.rng(salt, "history", index)
     # documents in which override sections only reference universal variables (index % 4 != 3)
     doc_index = 4 * (index // 3) + index % 3
     (doc, user), _ = gen_doc(doc_index, salt=salt)
+    if r.random() < 0.7:
+        add_dict_options(r, doc)
     platforms = list(doc["platforms"])
     others = [p for p in platforms if p != "default"]
     active = r.choice(others + others + ["default"])
@@ -94,16 +180,25 @@ def gen_history(index, salt="C04-updates"):
             out.append({"comp": [s, n], "platform": p, "explicit": not (p == active and r.random() < 0.3)})
         return {"op": "read", "pairs": out}
 
+    def ro_block():
+        return [_ro_step(r, platforms, active, comps) for _ in range(r.choice([1, 1, 2, 3]))]
+
+    if r.random() < 0.5:            # what loading a package does: instance()/replicate() before any query
+        steps.extend(ro_block())
     steps.append(read_step(r.random() < 0.8))
     if user_mode == "after_warm":
         if r.random() < 0.5:
             steps.append(_set_step(r, tracked, platforms, active, comps, nstages, user_names, with_undefined, len(steps)))
         steps.append({"op": "user"})
         steps.append(read_step(True))
-    for _ in range(r.choice([3, 4, 5, 6])):
-        steps.append(_set_step(r, tracked, platforms, active, comps, nstages, user_names, with_undefined, len(steps)))
-        if r.random() < 0.15:       # two updates in a row
+    for _ in range(r.choice([4, 5, 6, 7])):
+        x = r.random()
+        if x < 0.7:
             steps.append(_set_step(r, tracked, platforms, active, comps, nstages, user_names, with_undefined, len(steps)))
+            if r.random() < 0.15:       # two updates in a row
+                steps.append(_set_step(r, tracked, platforms, active, comps, nstages, user_names, with_undefined, len(steps)))
+        if x >= 0.45:                   # 0.45-0.7: update then read-only operations; >= 0.7: read-only operations alone
+            steps.extend(ro_block())
         steps.append(read_step(r.random() < 0.75))
     return {"index": index, "doc": doc, "user": user, "active": active, "steps": steps}
 
